@@ -187,7 +187,7 @@ fn families0(tier: vcore::Tier) -> Vec<Family> {
     // A2. messages and stop arriving before post_start has completed; held stop hooks
     {
         let mut cfgs = Vec::new();
-        for &(w, poll) in &combos {
+        for (j, &(w, poll)) in combos.iter().enumerate() {
             let mut c = base("heldstart", w, poll);
             // + failing stop hooks (pre_stop, post_stop, both)
             let b = spec(None, 2, [false, true, true, true]);
@@ -197,7 +197,13 @@ fn families0(tier: vcore::Tier) -> Vec<Family> {
             f3.post_stop_fail = true;
             let mut f23 = f2.clone();
             f23.post_stop_fail = true;
-            c.specs = vec![b, f2, f3, f23];
+            // (thorough: all four on the first worker/driver combination, one failing variant on each other)
+            c.specs = match j {
+                0 => vec![b, f2, f3, f23],
+                1 => vec![b, f2],
+                2 => vec![b, f3],
+                _ => vec![b, f23],
+            };
             cfgs.push(c);
         }
         if quick {
@@ -279,7 +285,7 @@ fn families0(tier: vcore::Tier) -> Vec<Family> {
     // D. supervisor: lifecycle events and replacement under the same name
     {
         let mut cfgs = Vec::new();
-        for &(w, poll) in &combos {
+        for (j, &(w, poll)) in combos.iter().enumerate() {
             let mut c = base("supervisor", w, poll);
             c.supervisor = true;
             c.nnames = 1;
@@ -295,7 +301,8 @@ fn families0(tier: vcore::Tier) -> Vec<Family> {
             let mut qsf = qf.clone();
             qsf.pre_stop_fail = true;
             qsf.post_stop_fail = true;
-            c.specs = vec![ok, qf, sf, qsf];
+            // (thorough: both on the w2/poll combination -- the quick one --, one of them on each other)
+            c.specs = if quick || j == 3 { vec![ok, qf, sf, qsf] } else if j % 2 == 0 { vec![ok, qf, sf] } else { vec![ok, qf, qsf] };
             cfgs.push(c);
         }
         if quick {
